@@ -156,6 +156,9 @@ Proof.
   - intros s Hs. apply Hdisj. apply H2. exact Hs.
 Qed.
 
+Lemma sub_refl_own : forall l, leq l l = true.
+Proof. induction l as [|x l IH]; cbn [leq]; [reflexivity|]. rewrite Nat.eqb_refl. exact IH. Qed.
+
 Lemma sub_refl : forall G, sub G G = true.
 Proof.
   intro G. unfold sub. apply andb_true_iff. split.
@@ -404,6 +407,14 @@ Lemma NoDup_app_r : forall (A : Type) (l1 l2 : list A), NoDup (l1 ++ l2) -> NoDu
 Proof.
   induction l1 as [|x l1 IH]; intros l2 H; [exact H|]. cbn [app] in H. inversion H; subst. apply IH. assumption.
 Qed.
+Lemma NoDup_app_intro : forall (A : Type) (l1 l2 : list A), NoDup l1 -> NoDup l2 ->
+  (forall x, In x l1 -> In x l2 -> False) -> NoDup (l1 ++ l2).
+Proof.
+  induction l1 as [|x l1 IH]; intros l2 H1 H2 Hd; [exact H2|]. cbn [app]. inversion H1 as [|? ? Hn Hd1]; subst.
+  constructor.
+  - intro Hin. apply in_app_or in Hin. destruct Hin as [Hin|Hin]; [exact (Hn Hin) | apply (Hd x); [left; reflexivity | exact Hin]].
+  - apply IH; [exact Hd1 | exact H2|]. intros y Hy1 Hy2. apply (Hd y); [right; exact Hy1 | exact Hy2].
+Qed.
 Lemma NoDup_map_app_l : forall (A B : Type) (f : A -> B) l1 l2, NoDup (map f (l1 ++ l2)) -> NoDup (map f l1).
 Proof. intros A B f l1 l2 H. rewrite map_app in H. eapply NoDup_app_l; exact H. Qed.
 Lemma NoDup_map_app_r : forall (A B : Type) (f : A -> B) l1 l2, NoDup (map f (l1 ++ l2)) -> NoDup (map f l2).
@@ -474,10 +485,10 @@ Proof.
   intros [E|Hin]; [congruence | exact (H s Hs Hin)].
 Qed.
 
-Lemma sound_INew : forall G st d n G', Inv G st -> own_check ctx0 (INew d n) G = Some (Some G') ->
+Lemma sound_INew : forall K G st d n G', Inv G st -> own_check K (INew d n) G = Some (Some G') ->
   forall fuel, exists st', run fuel (INew d n) st = (ONormal, st') /\ Inv G' st'.
 Proof.
-  intros G st d n G' I H fuel. cbn [own_check] in H. destruct (writable d G) eqn:W; [|discriminate H].
+  intros K G st d n G' I H fuel. cbn [own_check] in H. destruct (writable d G) eqn:W; [|discriminate H].
   inversion H; subst G'. clear H. apply writable_notin in W.
   cbn [run]. destruct (alloc st n) as [b st1] eqn:Ea. eexists. split; [reflexivity|].
   destruct (alloc_spec _ _ _ _ Ea) as [Est [_ Hc]].
@@ -513,3 +524,945 @@ Proof.
     + subst st1. apply (inv_next _ _ I).
     + rewrite Enx. pose proof (inv_next _ _ I). lia.
 Qed.
+
+Lemma read_place_in : forall G st p, Inv G st -> In (root p) (o_own G) ->
+  incl (somes (read_place st p)) (slot_blocks st (root p)).
+Proof.
+  intros G st p I Hin. destruct p as [s|s k|s]; cbn [read_place root] in *.
+  - unfold slot_blocks. apply incl_refl.
+  - unfold slot_blocks. intros b Hb. cbn [somes flat_map] in Hb. rewrite app_nil_r in Hb.
+    destruct (nth_in_or_default k (blocks_of (sget (r_store st) s)) None) as [Hn|Hn].
+    + destruct (nth k (blocks_of (sget (r_store st) s)) None) as [b'|] eqn:E; [|destruct Hb].
+      destruct Hb as [Hb|[]]. subst b'. unfold somes. apply in_flat_map. exists (Some b). split; [exact Hn | left; reflexivity].
+    + rewrite Hn in Hb. destruct Hb.
+  - unfold slot_blocks. intros b Hb. destruct (blocks_of (sget (r_store st) s)) as [|x l]; [exact Hb|].
+    cbn [tl] in Hb. change (x :: l) with ([x] ++ l). rewrite somes_app. apply in_or_app. right. exact Hb.
+Qed.
+
+Lemma read_place_sizes : forall G st p, Inv G st -> In (root p) (o_own G) -> sizes_ok (read_place st p).
+Proof.
+  intros G st p I Hin id n Hb. apply (read_place_in G st p I Hin) in Hb.
+  apply (inv_fresh _ _ I id n). eapply slot_blocks_in_owned; eassumption.
+Qed.
+
+Lemma sound_ICopy : forall K G st d p G', Inv G st -> own_check K (ICopy d p) G = Some (Some G') ->
+  forall fuel, exists st', run fuel (ICopy d p) st = (ONormal, st') /\ Inv G' st'.
+Proof.
+  intros K G st d p G' I H fuel. cbn [own_check] in H.
+  destruct (writable d G) eqn:W; cbn [andb] in H; [|discriminate H].
+  destruct (mem (root p) (o_own G)) eqn:M; [|discriminate H]. inversion H; subst G'. clear H.
+  apply writable_notin in W. apply mem_In in M.
+  cbn [run]. assert (Hpe : place_eqb p (PSlot d) = false).
+  { destruct p as [s|s k|s]; cbn [place_eqb]; [|reflexivity|reflexivity]. apply Nat.eqb_neq. intro E. subst s. exact (W M). }
+  rewrite Hpe. destruct (copy_blocks st (read_place st p)) as [l st1] eqn:Ec.
+  eexists. split; [reflexivity|].
+  destruct (copy_blocks_spec _ _ _ _ _ Ec (read_place_sizes _ _ _ I M) (inv_heap _ _ I) (below_owned _ _ I) (inv_next _ _ I))
+    as [Est [Hnx [Hh [Hnd Hfr]]]].
+  assert (Hsg : forall s, s <> d -> sget (r_store (sset st1 d (Res l))) s = sget (r_store st) s).
+  { intros s Hne. rewrite sget_sset. apply Nat.eqb_neq in Hne. rewrite Hne, Est. reflexivity. }
+  assert (Hown : owned (sset st1 d (Res l)) (o_own G) = owned st (o_own G)) by (eapply owned_other; eassumption).
+  apply Inv_intro with (B := somes l ++ owned st (o_own G)).
+  - apply give_nodup; [apply (inv_nd _ _ I) | exact W].
+  - intros s Hs. cbn in Hs. apply ins_In in Hs. rewrite sget_sset. destruct (Nat.eqb_spec s d) as [E|E]; [eexists; reflexivity|].
+    destruct Hs as [Hs|Hs]; [congruence|]. rewrite Est. apply (inv_res _ _ I). exact Hs.
+  - cbn [give o_dead]. eapply give_dead_ok; [apply (inv_dead _ _ I) | exact Hsg].
+  - apply give_disj. apply (inv_disj _ _ I).
+  - cbn [give o_own]. eapply Permutation_trans; [|apply Permutation_sym, owned_give_perm; exact W].
+    rewrite Hown. unfold slot_blocks. rewrite sget_sset, Nat.eqb_refl. apply Permutation_refl.
+  - eapply heap_is_store; [|exact Hh]. reflexivity.
+  - rewrite map_app. apply NoDup_app_intro; [exact Hnd | apply (inv_uniq _ _ I)|].
+    intros x Hx1 Hx2. apply in_map_iff in Hx1. destruct Hx1 as [[i m] [Hf Hi]]. cbn [fst] in Hf. subst i.
+    apply in_map_iff in Hx2. destruct Hx2 as [[i' m'] [Hf' Hi']]. cbn [fst] in Hf'. subst i'.
+    apply Hfr in Hi. apply (inv_fresh _ _ I) in Hi'. lia.
+  - intros id m Hin. cbn [r_next sset]. apply in_app_or in Hin. destruct Hin as [Hin|Hin].
+    + apply Hfr in Hin. pose proof (inv_next _ _ I). lia.
+    + apply (inv_fresh _ _ I) in Hin. lia.
+  - cbn [r_next sset]. pose proof (inv_next _ _ I). lia.
+Qed.
+
+Lemma sound_IMove : forall K G st d s G', Inv G st -> own_check K (IMove d s) G = Some (Some G') ->
+  forall fuel, exists st', run fuel (IMove d s) st = (ONormal, st') /\ Inv G' st'.
+Proof.
+  intros K G st d s G' I H fuel. cbn [own_check] in H.
+  destruct (writable d G) eqn:W; cbn [andb] in H; [|discriminate H].
+  destruct (mem s (o_own G)) eqn:M; cbn [andb] in H; [|discriminate H].
+  destruct (Nat.eqb_spec d s) as [E|Ne]; cbn [negb] in H; [discriminate H|]. inversion H; subst G'. clear H.
+  apply writable_notin in W. apply mem_In in M.
+  cbn [run]. eexists. split; [reflexivity|].
+  set (st' := sset st d (sget (r_store st) s)).
+  assert (Hsg : forall x, x <> d -> sget (r_store st') x = sget (r_store st) x).
+  { intros x Hne. unfold st'. rewrite sget_sset. apply Nat.eqb_neq in Hne. rewrite Hne. reflexivity. }
+  assert (Wd : ~ In d (del s (o_own G))) by (intro Hd; apply del_In in Hd; tauto).
+  apply Inv_intro with (B := owned st (o_own G)).
+  - cbn [give take o_own]. apply ins_nodup; [exact Wd | apply del_nodup, (inv_nd _ _ I)].
+  - intros x Hx. cbn [give take o_own] in Hx. apply ins_In in Hx. destruct (Nat.eqb_spec x d) as [E|E].
+    + subst x. unfold st'. rewrite sget_sset, Nat.eqb_refl. apply (inv_res _ _ I). exact M.
+    + destruct Hx as [Hx|Hx]; [congruence|]. rewrite (Hsg x E). apply (inv_res _ _ I). apply del_In in Hx. tauto.
+  - cbn [give take o_dead]. eapply give_dead_ok; [apply (inv_dead _ _ I) | exact Hsg].
+  - intros x Hx. cbn [give take o_dead o_own] in *. apply del_In in Hx. destruct Hx as [Hx Hne]. rewrite ins_In.
+    intros [E|Hin]; [congruence|]. apply del_In in Hin. apply (inv_disj _ _ I x Hx). tauto.
+  - cbn [give take o_own]. eapply Permutation_trans; [|apply Permutation_sym, owned_give_perm; exact Wd].
+    rewrite (owned_other st st' d _ Wd Hsg).
+    replace (slot_blocks st' d) with (slot_blocks st s).
+    + apply owned_take_perm; [apply (inv_nd _ _ I) | exact M].
+    + unfold slot_blocks, st'. rewrite sget_sset, Nat.eqb_refl. reflexivity.
+  - eapply heap_is_store; [|apply (inv_heap _ _ I)]. reflexivity.
+  - apply (inv_uniq _ _ I).
+  - intros id n Hin. apply (inv_fresh _ _ I) in Hin. exact Hin.
+  - apply (inv_next _ _ I).
+Qed.
+
+Lemma sound_IFree : forall K G st s G', Inv G st -> own_check K (IFree s) G = Some (Some G') ->
+  forall fuel, exists st', run fuel (IFree s) st = (ONormal, st') /\ Inv G' st'.
+Proof.
+  intros K G st s G' I H fuel. cbn [own_check] in H. cbn [run]. eexists. split; [reflexivity|].
+  destruct (mem s (o_own G)) eqn:M.
+  - inversion H; subst G'. clear H. apply mem_In in M.
+    destruct (inv_res _ _ I s M) as [l El]. rewrite El. cbn [blocks_of].
+    set (F := tl l ++ [hd None l]).
+    assert (HPF : Permutation (somes F) (slot_blocks st s)).
+    { unfold slot_blocks. rewrite El. cbn [blocks_of]. apply somes_rot. }
+    pose proof (owned_take_perm st s _ (inv_nd _ _ I) M) as HP.
+    assert (Hnd' : NoDup (map fst (slot_blocks st s ++ owned st (del s (o_own G))))).
+    { eapply Permutation_NoDup; [apply Permutation_map; exact HP | apply (inv_uniq _ _ I)]. }
+    assert (Hincl : incl (somes F) (owned st (o_own G))).
+    { intros b Hb. eapply slot_blocks_in_owned; [exact M|]. eapply Permutation_in; [exact HPF | exact Hb]. }
+    assert (HndF : NoDup (map fst (somes F))).
+    { eapply Permutation_NoDup; [apply Permutation_map, Permutation_sym; exact HPF|]. eapply NoDup_map_app_l; exact Hnd'. }
+    assert (Hnz : forall id n, In (id, n) (somes F) -> id <> 0).
+    { intros id n Hb. apply Hincl in Hb. apply (inv_fresh _ _ I) in Hb. lia. }
+    destruct (free_blocks_spec F st _ (inv_heap _ _ I) (inv_uniq _ _ I) Hincl HndF Hnz) as [Est [Enx [_ Hh]]].
+    set (st' := free_blocks st F) in *.
+    assert (Hown : owned st' (del s (o_own G)) = owned st (del s (o_own G))).
+    { apply owned_ext. intros x _. rewrite Est. reflexivity. }
+    apply Inv_intro with (B := owned st (del s (o_own G))).
+    + cbn [take o_own]. apply del_nodup, (inv_nd _ _ I).
+    + intros x Hx. cbn [take o_own] in Hx. apply del_In in Hx. rewrite Est. apply (inv_res _ _ I). tauto.
+    + intros x Hx. cbn [take o_dead] in Hx. rewrite Est. apply (inv_dead _ _ I). exact Hx.
+    + intros x Hx. cbn [take o_dead o_own] in *. intro Hin. apply del_In in Hin. apply (inv_disj _ _ I x Hx). tauto.
+    + cbn [take o_own]. rewrite Hown. apply Permutation_refl.
+    + eapply heap_is_perm; [exact Hh|]. intro x.
+      rewrite <- (owned_split_minus st s _ (inv_nd _ _ I) M (inv_uniq _ _ I) x). rewrite !minus_In.
+      assert (Hids : In (fst x) (ids (somes F)) <-> In (fst x) (ids (slot_blocks st s))).
+      { unfold ids. split; intro Hi; (eapply Permutation_in; [apply Permutation_map | exact Hi]); [exact HPF | apply Permutation_sym; exact HPF]. }
+      tauto.
+    + eapply NoDup_map_app_r; exact Hnd'.
+    + intros id n Hin. rewrite Enx. apply (inv_fresh _ _ I id n).
+      eapply Permutation_in; [apply Permutation_sym; exact HP|]. apply in_or_app. right. exact Hin.
+    + rewrite Enx. apply (inv_next _ _ I).
+  - destruct (mem s (o_dead G)) eqn:Md; [|discriminate H]. inversion H; subst G'. clear H. apply mem_In in Md.
+    destruct (inv_dead _ _ I s Md) as [l [El Hs]]. rewrite El. cbn [blocks_of].
+    rewrite free_blocks_nones; [exact I|].
+    destruct l as [|x l]; [reflexivity|]. cbn [tl hd]. rewrite somes_app.
+    destruct x as [b|]; [rewrite somes_cons_some in Hs; discriminate Hs|]. rewrite somes_cons_none in Hs. rewrite Hs. reflexivity.
+Qed.
+
+(* the store after a concatenation: d holds the result, a is emptied *)
+Lemma concat_frame : forall G st stX d a newd,
+  Inv G st -> r_store stX = r_store st -> ~ In d (o_own G) -> In a (o_own G) -> d <> a ->
+  let st' := sset (sset stX d (Res newd)) a (Res [None]) in
+  let G' := give d (mkO (del a (o_own G)) (ins a (o_dead G))) in
+  NoDup (o_own G') /\
+  (forall s, In s (o_own G') -> exists l, sget (r_store st') s = Res l) /\
+  (forall s, In s (o_dead G') -> exists l, sget (r_store st') s = Res l /\ somes l = []) /\
+  (forall s, In s (o_dead G') -> ~ In s (o_own G')) /\
+  Permutation (somes newd ++ owned st (del a (o_own G))) (owned st' (o_own G')).
+Proof.
+  intros G st stX d a newd I Est W Ha Hda st' G'.
+  assert (Hget : forall x, sget (r_store st') x = if Nat.eqb x a then Res [None] else if Nat.eqb x d then Res newd else sget (r_store st) x).
+  { intro x. unfold st'. rewrite !sget_sset. rewrite Est. reflexivity. }
+  assert (Wd : ~ In d (del a (o_own G))) by (intro Hd; apply del_In in Hd; tauto).
+  assert (Wa : ~ In a (del a (o_own G))) by (intro Hd; apply del_In in Hd; tauto).
+  split; [|split; [|split; [|split]]].
+  - cbn. apply ins_nodup; [exact Wd | apply del_nodup, (inv_nd _ _ I)].
+  - intros s Hs. cbn in Hs. apply ins_In in Hs. rewrite Hget.
+    destruct (Nat.eqb_spec s a); [eexists; reflexivity|]. destruct (Nat.eqb_spec s d); [eexists; reflexivity|].
+    destruct Hs as [Hs|Hs]; [congruence|]. apply del_In in Hs. apply (inv_res _ _ I). tauto.
+  - intros s Hs. cbn in Hs. apply del_In in Hs. destruct Hs as [Hs Hne]. apply ins_In in Hs. rewrite Hget.
+    destruct (Nat.eqb_spec s a); [exists [None]; split; reflexivity|]. destruct (Nat.eqb_spec s d); [congruence|].
+    destruct Hs as [Hs|Hs]; [congruence|]. apply (inv_dead _ _ I). exact Hs.
+  - intros s Hs. cbn in *. apply del_In in Hs. destruct Hs as [Hs Hne]. apply ins_In in Hs. rewrite ins_In.
+    intros [E|Hin]; [congruence|]. apply del_In in Hin. destruct Hin as [Hin Hna].
+    destruct Hs as [Hs|Hs]; [congruence|]. exact (inv_disj _ _ I s Hs Hin).
+  - cbn [G' give o_own]. eapply Permutation_trans; [|apply Permutation_sym, owned_give_perm; exact Wd].
+    replace (slot_blocks st' d) with (somes newd).
+    + apply Permutation_app_head. replace (owned st' (del a (o_own G))) with (owned st (del a (o_own G))); [apply Permutation_refl|].
+      symmetry. apply owned_ext. intros x Hx. rewrite Hget.
+      destruct (Nat.eqb_spec x a); [subst x; contradiction|]. destruct (Nat.eqb_spec x d); [subst x; contradiction | reflexivity].
+    + unfold slot_blocks. rewrite Hget. destruct (Nat.eqb_spec d a); [contradiction|]. rewrite Nat.eqb_refl. reflexivity.
+Qed.
+
+Lemma somes_hd_tl : forall l, somes l = somes [hd None l] ++ somes (tl l).
+Proof. intros [|x l]; [reflexivity|]. cbn [hd tl]. change (x :: l) with ([x] ++ l). apply somes_app. Qed.
+
+(* with unique ids, removing one id removes exactly that block *)
+Lemma filter_one : forall (b : blk) (R : list blk), NoDup (map fst (b :: R)) ->
+  forall x, In x (filter (fun y => negb (N.eqb (fst y) (fst b))) (b :: R)) <-> In x R.
+Proof.
+  intros b R Hnd x. rewrite filter_In. cbn [In]. inversion Hnd as [|? ? Hn Hd]; subst. split.
+  - intros [[E|Hx] Hf]; [subst x; rewrite N.eqb_refl in Hf; discriminate Hf | exact Hx].
+  - intro Hx. split; [right; exact Hx|]. apply negb_true_iff. apply N.eqb_neq. intro E. apply Hn.
+    rewrite <- E. apply in_map. exact Hx.
+Qed.
+
+Lemma sound_IConcat : forall K G st d a pb G', Inv G st -> own_check K (IConcat d a pb) G = Some (Some G') ->
+  forall fuel, exists st', run fuel (IConcat d a pb) st = (ONormal, st') /\ Inv G' st'.
+Proof.
+  intros K G st d a pb G' I H fuel. cbn [own_check] in H.
+  destruct (writable d G) eqn:W; cbn [andb] in H; [|discriminate H].
+  destruct (mem a (o_own G)) eqn:Ma; cbn [andb] in H; [|discriminate H].
+  destruct (mem (root pb) (o_own G)) eqn:Mb; cbn [andb] in H; [|discriminate H].
+  destruct (Nat.eqb_spec d a) as [E|Hda]; cbn [negb andb] in H; [discriminate H|].
+  destruct (Nat.eqb_spec (root pb) a) as [E|Hba]; cbn [negb] in H; [discriminate H|].
+  inversion H; subst G'. clear H. apply writable_notin in W. apply mem_In in Ma. apply mem_In in Mb.
+  destruct (inv_res _ _ I a Ma) as [ba Eba].
+  pose proof (owned_take_perm st a _ (inv_nd _ _ I) Ma) as HP.
+  assert (Hsa : slot_blocks st a = somes [hd None ba] ++ somes (tl ba)).
+  { unfold slot_blocks. rewrite Eba. cbn [blocks_of]. apply somes_hd_tl. }
+  assert (Hnd' : NoDup (map fst (slot_blocks st a ++ owned st (del a (o_own G))))).
+  { eapply Permutation_NoDup; [apply Permutation_map; exact HP | apply (inv_uniq _ _ I)]. }
+  assert (Hlb : forall i nb, hd None (read_place st pb) = Some (i, nb) -> nb <> 0).
+  { intros i nb E. apply (read_place_sizes _ _ _ I Mb i nb). destruct (read_place st pb) as [|x r]; [discriminate E|].
+    cbn [hd] in E. subst x. rewrite somes_cons_some. left. reflexivity. }
+  cbn [run]. rewrite Eba. cbn [blocks_of].
+  destruct (hd None ba) as [[ida na]|] eqn:Eh; destruct (hd None (read_place st pb)) as [[ib nb]|] eqn:El.
+  - (* both non-empty *)
+    assert (Hina : In (ida, na) (owned st (o_own G))).
+    { eapply Permutation_in; [apply Permutation_sym; exact HP|]. apply in_or_app. left. rewrite Hsa. left. reflexivity. }
+    pose proof (inv_fresh _ _ I _ _ Hina) as [Hida Hna]. pose proof (Hlb _ _ eq_refl) as Hnb.
+    destruct (N.eqb_spec (na - 1 + nb) na) as [En|En].
+    + eexists. split; [reflexivity|].
+      destruct (concat_frame G st (emit st (Ev ida na na ida)) d a (Some (ida, na) :: tl ba) I eq_refl W Ma Hda) as [F1 [F2 [F3 [F4 F5]]]].
+      apply Inv_intro with (B := owned st (o_own G)); try assumption.
+      * eapply Permutation_trans; [exact HP|]. eapply Permutation_trans; [|exact F5].
+        apply Permutation_app_tail. rewrite Hsa. rewrite somes_cons_some. apply Permutation_refl.
+      * eapply heap_same; [apply (inv_heap _ _ I) | exact Hina | lia | exact Hna | reflexivity].
+      * apply (inv_uniq _ _ I).
+      * intros id n Hin. apply (inv_fresh _ _ I) in Hin. exact Hin.
+      * apply (inv_next _ _ I).
+    + eexists. split; [reflexivity|].
+      set (n := na - 1 + nb) in *. set (id := r_next st).
+      set (stX := mkR (r_store st) (N.succ id) (Ev ida na n id :: r_led st) (r_oracle st)).
+      destruct (concat_frame G st stX d a (Some (id, n) :: tl ba) I eq_refl W Ma Hda) as [F1 [F2 [F3 [F4 F5]]]].
+      apply Inv_intro with (B := (id, n) :: somes (tl ba) ++ owned st (del a (o_own G))); try assumption.
+      * assert (Hset : forall x, In x (filter (fun y => negb (N.eqb (fst y) ida)) (owned st (o_own G))) <->
+                                 In x (somes (tl ba) ++ owned st (del a (o_own G)))).
+        { intro x. rewrite <- (filter_one (ida, na) (somes (tl ba) ++ owned st (del a (o_own G)))).
+          - cbn [fst]. rewrite !filter_In. rewrite Hsa in HP. cbn [somes flat_map app] in HP.
+            split; intros [Hx Hf]; (split; [|exact Hf]); (eapply Permutation_in; [|exact Hx]); [exact HP | apply Permutation_sym; exact HP].
+          - rewrite Hsa in Hnd'. exact Hnd'. }
+        eapply heap_is_perm.
+        -- eapply (heap_realloc st _ ida na id n (inv_heap _ _ I) (inv_uniq _ _ I) Hina); [lia | | | exact (not_eq_sym En) | | reflexivity].
+           ++ pose proof (inv_next _ _ I). unfold id. lia.
+           ++ unfold n. lia.
+           ++ intros m Hin. apply (inv_fresh _ _ I) in Hin. unfold id in Hin. lia.
+        -- intro x. cbn [In]. rewrite Hset. tauto.
+      * cbn [map fst]. constructor.
+        -- intro Hin. apply in_map_iff in Hin. destruct Hin as [[i m] [Hf Hin]]. cbn [fst] in Hf. subst i.
+           assert (Hin2 : In (id, m) (owned st (o_own G))).
+           { eapply Permutation_in; [apply Permutation_sym; exact HP|]. rewrite Hsa. apply in_app_or in Hin.
+             apply in_or_app. destruct Hin as [Hin|Hin]; [left; apply in_or_app; right; exact Hin | right; exact Hin]. }
+           apply (inv_fresh _ _ I) in Hin2. unfold id in Hin2. lia.
+        -- rewrite Hsa in Hnd'. cbn [somes flat_map app map fst] in Hnd'. inversion Hnd'; assumption.
+      * intros i m [Hin|Hin].
+        -- inversion Hin; subst. cbn [r_next sset stX]. pose proof (inv_next _ _ I). unfold id, n. split; lia.
+        -- assert (Hin2 : In (i, m) (owned st (o_own G))).
+           { eapply Permutation_in; [apply Permutation_sym; exact HP|]. rewrite Hsa. apply in_app_or in Hin.
+             apply in_or_app. destruct Hin as [Hin|Hin]; [left; apply in_or_app; right; exact Hin | right; exact Hin]. }
+           apply (inv_fresh _ _ I) in Hin2. cbn [r_next sset stX]. unfold id. lia.
+      * cbn [r_next sset stX]. pose proof (inv_next _ _ I). unfold id. lia.
+  - (* right operand empty: the left operand's buffer is the result *)
+    eexists. split; [reflexivity|].
+    destruct (concat_frame G st st d a (Some (ida, na) :: tl ba) I eq_refl W Ma Hda) as [F1 [F2 [F3 [F4 F5]]]].
+    apply Inv_intro with (B := owned st (o_own G)); try assumption.
+    + eapply Permutation_trans; [exact HP|]. eapply Permutation_trans; [|exact F5].
+      apply Permutation_app_tail. rewrite Hsa. rewrite somes_cons_some. apply Permutation_refl.
+    + eapply heap_is_store; [|apply (inv_heap _ _ I)]. reflexivity.
+    + apply (inv_uniq _ _ I).
+    + intros id n Hin. apply (inv_fresh _ _ I) in Hin. exact Hin.
+    + apply (inv_next _ _ I).
+  - (* left operand empty: copy of the right operand *)
+    pose proof (Hlb _ _ eq_refl) as Hnb.
+    destruct (alloc st nb) as [b st1] eqn:Ea. eexists. split; [reflexivity|].
+    destruct (alloc_spec _ _ _ _ Ea) as [Est [_ [[En _]|[_ [Eb [Enx Eled]]]]]]; [congruence|]. subst b.
+    destruct (concat_frame G st st1 d a (Some (r_next st, nb) :: tl ba) I Est W Ma Hda) as [F1 [F2 [F3 [F4 F5]]]].
+    apply Inv_intro with (B := (r_next st, nb) :: owned st (o_own G)); try assumption.
+    + rewrite somes_cons_some in F5. eapply Permutation_trans; [|exact F5]. cbn [app]. apply perm_skip.
+      eapply Permutation_trans; [exact HP|]. apply Permutation_app_tail. rewrite Hsa. cbn [somes flat_map app]. apply Permutation_refl.
+    + eapply heap_is_store with (st := st1); [reflexivity|].
+      eapply heap_alloc; [apply (inv_heap _ _ I) | | exact Hnb | | exact Eled].
+      * pose proof (inv_next _ _ I). lia.
+      * intros m Hin. apply (inv_fresh _ _ I) in Hin. lia.
+    + cbn [map fst]. constructor; [|apply (inv_uniq _ _ I)].
+      intro Hin. apply in_map_iff in Hin. destruct Hin as [[i m] [Hf Hin]]. cbn [fst] in Hf. subst i.
+      apply (inv_fresh _ _ I) in Hin. lia.
+    + intros i m [Hin|Hin]; cbn [r_next sset]; rewrite Enx.
+      * inversion Hin; subst. pose proof (inv_next _ _ I). split; [lia | exact Hnb].
+      * apply (inv_fresh _ _ I) in Hin. lia.
+    + cbn [r_next sset]. rewrite Enx. pose proof (inv_next _ _ I). lia.
+  - (* both empty *)
+    eexists. split; [reflexivity|].
+    destruct (concat_frame G st st d a (None :: tl ba) I eq_refl W Ma Hda) as [F1 [F2 [F3 [F4 F5]]]].
+    apply Inv_intro with (B := owned st (o_own G)); try assumption.
+    + eapply Permutation_trans; [exact HP|]. eapply Permutation_trans; [|exact F5].
+      apply Permutation_app_tail. rewrite Hsa. rewrite somes_cons_none. cbn [somes flat_map app]. apply Permutation_refl.
+    + eapply heap_is_store; [|apply (inv_heap _ _ I)]. reflexivity.
+    + apply (inv_uniq _ _ I).
+    + intros id n Hin. apply (inv_fresh _ _ I) in Hin. exact Hin.
+    + apply (inv_next _ _ I).
+Qed.
+
+Lemma sound_IGrow : forall K G st d a n G', Inv G st -> own_check K (IGrow d a n) G = Some (Some G') ->
+  forall fuel, exists st', run fuel (IGrow d a n) st = (ONormal, st') /\ Inv G' st'.
+Proof.
+  intros K G st d a n G' I H fuel. cbn [own_check] in H.
+  destruct (writable d G) eqn:W; cbn [andb] in H; [|discriminate H].
+  destruct (mem a (o_own G)) eqn:Ma; cbn [andb] in H; [|discriminate H].
+  destruct (Nat.eqb_spec d a) as [E|Hda]; cbn [negb] in H; [discriminate H|].
+  inversion H; subst G'. clear H. apply writable_notin in W. apply mem_In in Ma.
+  destruct (inv_res _ _ I a Ma) as [ba Eba].
+  pose proof (owned_take_perm st a _ (inv_nd _ _ I) Ma) as HP.
+  assert (Hsa : slot_blocks st a = somes [hd None ba] ++ somes (tl ba)).
+  { unfold slot_blocks. rewrite Eba. cbn [blocks_of]. apply somes_hd_tl. }
+  assert (Hnd' : NoDup (map fst (slot_blocks st a ++ owned st (del a (o_own G))))).
+  { eapply Permutation_NoDup; [apply Permutation_map; exact HP | apply (inv_uniq _ _ I)]. }
+  cbn [run]. rewrite Eba. cbn [blocks_of].
+  destruct (hd None ba) as [[ida na]|] eqn:Eh.
+  - assert (Hina : In (ida, na) (owned st (o_own G))).
+    { eapply Permutation_in; [apply Permutation_sym; exact HP|]. apply in_or_app. left. rewrite Hsa. left. reflexivity. }
+    pose proof (inv_fresh _ _ I _ _ Hina) as [Hida Hna].
+    assert (Hrest : forall i m, In (i, m) (somes (tl ba) ++ owned st (del a (o_own G))) -> In (i, m) (owned st (o_own G))).
+    { intros i m Hin. eapply Permutation_in; [apply Permutation_sym; exact HP|]. rewrite Hsa. apply in_app_or in Hin.
+      apply in_or_app. destruct Hin as [Hin|Hin]; [left; apply in_or_app; right; exact Hin | right; exact Hin]. }
+    assert (Hset : forall x, In x (filter (fun y => negb (N.eqb (fst y) ida)) (owned st (o_own G))) <->
+                             In x (somes (tl ba) ++ owned st (del a (o_own G)))).
+    { intro x. rewrite <- (filter_one (ida, na) (somes (tl ba) ++ owned st (del a (o_own G)))).
+      - cbn [fst]. rewrite !filter_In. rewrite Hsa in HP. cbn [somes flat_map app] in HP.
+        split; intros [Hx Hf]; (split; [|exact Hf]); (eapply Permutation_in; [|exact Hx]); [exact HP | apply Permutation_sym; exact HP].
+      - rewrite Hsa in Hnd'. exact Hnd'. }
+    assert (HndR : NoDup (map fst (somes (tl ba) ++ owned st (del a (o_own G))))).
+    { rewrite Hsa in Hnd'. cbn [somes flat_map app map fst] in Hnd'. inversion Hnd'; assumption. }
+    destruct (N.eqb_spec n 0) as [En0|En0]; [|destruct (N.eqb_spec n na) as [En|En]].
+    + (* realloc to 0 bytes frees the buffer *)
+      eexists. split; [reflexivity|].
+      destruct (concat_frame G st (emit st (Ev ida na 0 0)) d a (None :: tl ba) I eq_refl W Ma Hda) as [F1 [F2 [F3 [F4 F5]]]].
+      apply Inv_intro with (B := somes (tl ba) ++ owned st (del a (o_own G))); try assumption.
+      * eapply heap_is_perm; [|exact Hset].
+        eapply (heap_free st _ ida na (inv_heap _ _ I) (inv_uniq _ _ I) Hina); [lia | reflexivity].
+      * intros i m Hin. apply Hrest in Hin. apply (inv_fresh _ _ I) in Hin. exact Hin.
+      * apply (inv_next _ _ I).
+    + subst n. eexists. split; [reflexivity|].
+      destruct (concat_frame G st (emit st (Ev ida na na ida)) d a (Some (ida, na) :: tl ba) I eq_refl W Ma Hda) as [F1 [F2 [F3 [F4 F5]]]].
+      apply Inv_intro with (B := owned st (o_own G)); try assumption.
+      * eapply Permutation_trans; [exact HP|]. eapply Permutation_trans; [|exact F5].
+        apply Permutation_app_tail. rewrite Hsa. rewrite somes_cons_some. apply Permutation_refl.
+      * eapply heap_same; [apply (inv_heap _ _ I) | exact Hina | lia | exact Hna | reflexivity].
+      * apply (inv_uniq _ _ I).
+      * intros id m Hin. apply (inv_fresh _ _ I) in Hin. exact Hin.
+      * apply (inv_next _ _ I).
+    + eexists. split; [reflexivity|]. set (id := r_next st).
+      set (stX := mkR (r_store st) (N.succ id) (Ev ida na n id :: r_led st) (r_oracle st)).
+      destruct (concat_frame G st stX d a (Some (id, n) :: tl ba) I eq_refl W Ma Hda) as [F1 [F2 [F3 [F4 F5]]]].
+      apply Inv_intro with (B := (id, n) :: somes (tl ba) ++ owned st (del a (o_own G))); try assumption.
+      * eapply heap_is_perm.
+        -- eapply (heap_realloc st _ ida na id n (inv_heap _ _ I) (inv_uniq _ _ I) Hina); [lia | | exact En0 | exact (not_eq_sym En) | | reflexivity].
+           ++ pose proof (inv_next _ _ I). unfold id. lia.
+           ++ intros m Hin. apply (inv_fresh _ _ I) in Hin. unfold id in Hin. lia.
+        -- intro x. cbn [In]. rewrite Hset. tauto.
+      * cbn [map fst]. constructor; [|exact HndR].
+        intro Hin. apply in_map_iff in Hin. destruct Hin as [[i m] [Hf Hin]]. cbn [fst] in Hf. subst i.
+        apply Hrest in Hin. apply (inv_fresh _ _ I) in Hin. unfold id in Hin. lia.
+      * intros i m [Hin|Hin].
+        -- inversion Hin; subst. cbn [r_next sset stX]. pose proof (inv_next _ _ I). unfold id. split; [lia | exact En0].
+        -- apply Hrest in Hin. apply (inv_fresh _ _ I) in Hin. cbn [r_next sset stX]. unfold id. lia.
+      * cbn [r_next sset stX]. pose proof (inv_next _ _ I). unfold id. lia.
+  - (* no buffer yet: plain allocation *)
+    destruct (alloc st n) as [b st1] eqn:Ea. eexists. split; [reflexivity|].
+    destruct (alloc_spec _ _ _ _ Ea) as [Est [_ Hc]].
+    destruct (concat_frame G st st1 d a (b :: tl ba) I Est W Ma Hda) as [F1 [F2 [F3 [F4 F5]]]].
+    assert (HP' : Permutation (owned st (o_own G)) (somes (tl ba) ++ owned st (del a (o_own G)))).
+    { eapply Permutation_trans; [exact HP|]. apply Permutation_app_tail. rewrite Hsa. cbn [somes flat_map app]. apply Permutation_refl. }
+    destruct Hc as [[En [Eb Es]]|[En [Eb [Enx Eled]]]].
+    + subst b st1. apply Inv_intro with (B := owned st (o_own G)); try assumption.
+      * eapply Permutation_trans; [exact HP'|]. rewrite somes_cons_none in F5. exact F5.
+      * eapply heap_is_store; [|apply (inv_heap _ _ I)]. reflexivity.
+      * apply (inv_uniq _ _ I).
+      * intros id m Hin. apply (inv_fresh _ _ I) in Hin. exact Hin.
+      * apply (inv_next _ _ I).
+    + subst b. apply Inv_intro with (B := (r_next st, n) :: owned st (o_own G)); try assumption.
+      * rewrite somes_cons_some in F5. eapply Permutation_trans; [|exact F5]. cbn [app]. apply perm_skip. exact HP'.
+      * eapply heap_is_store with (st := st1); [reflexivity|].
+        eapply heap_alloc; [apply (inv_heap _ _ I) | | exact En | | exact Eled].
+        -- pose proof (inv_next _ _ I). lia.
+        -- intros m Hin. apply (inv_fresh _ _ I) in Hin. lia.
+      * cbn [map fst]. constructor; [|apply (inv_uniq _ _ I)].
+        intro Hin. apply in_map_iff in Hin. destruct Hin as [[i m] [Hf Hin]]. cbn [fst] in Hf. subst i.
+        apply (inv_fresh _ _ I) in Hin. lia.
+      * intros i m [Hin|Hin]; cbn [r_next sset]; rewrite Enx.
+        -- inversion Hin; subst. pose proof (inv_next _ _ I). split; [lia | exact En].
+        -- apply (inv_fresh _ _ I) in Hin. lia.
+      * cbn [r_next sset]. rewrite Enx. pose proof (inv_next _ _ I). lia.
+Qed.
+
+(* ------------------------------------------------------------------ containers *)
+Lemma owned_update_perm : forall st st' d own, NoDup own -> In d own ->
+  (forall x, x <> d -> sget (r_store st') x = sget (r_store st) x) ->
+  Permutation (owned st' own) (slot_blocks st' d ++ owned st (del d own)).
+Proof.
+  intros st st' d own N Hd Hs. eapply Permutation_trans; [apply owned_take_perm; eassumption|].
+  apply Permutation_app_head. replace (owned st' (del d own)) with (owned st (del d own)); [apply Permutation_refl|].
+  symmetry. apply owned_ext. intros x Hx. apply Hs. apply del_In in Hx. tauto.
+Qed.
+
+Lemma set_nth_perm : forall l k (v : option blk), (k < length l)%nat ->
+  Permutation (somes (set_nth l k v) ++ somes [nth k l None]) (somes l ++ somes [v]).
+Proof.
+  induction l as [|x l IH]; intros k v Hk; [cbn in Hk; lia|]. destruct k as [|k]; cbn [set_nth nth].
+  - change (v :: l) with ([v] ++ l). change (x :: l) with ([x] ++ l). rewrite !somes_app.
+    eapply Permutation_trans; [apply Permutation_app_comm|].
+    rewrite <- app_assoc. apply Permutation_app_head. apply Permutation_app_comm.
+  - cbn [length] in Hk. change (x :: set_nth l k v) with ([x] ++ set_nth l k v). change (x :: l) with ([x] ++ l).
+    rewrite !somes_app. rewrite <- !app_assoc. apply Permutation_app_head. apply IH. lia.
+Qed.
+
+Lemma put_part_perm : forall l k v,
+  Permutation (somes (put_part l k v) ++ somes [nth k l None]) (somes l ++ somes v).
+Proof.
+  intros l k v. unfold put_part. destruct (Nat.ltb_spec k (length l)) as [Hk|Hk].
+  - rewrite somes_app. rewrite (somes_hd_tl v). rewrite <- app_assoc.
+    eapply Permutation_trans; [apply Permutation_app_head, Permutation_app_comm|]. rewrite !app_assoc.
+    apply Permutation_app_tail. apply set_nth_perm. exact Hk.
+  - rewrite (nth_overflow _ _ Hk). cbn [somes flat_map app]. rewrite app_nil_r. rewrite somes_app. apply Permutation_refl.
+Qed.
+
+(* removing a sub-multiset F from B when all ids are unique *)
+Lemma minus_of_perm : forall B X F, Permutation B (X ++ F) -> NoDup (map fst B) ->
+  forall x, In x (minus B F) <-> In x X.
+Proof.
+  intros B X F HP Hnd x. rewrite minus_In.
+  assert (Hnd' : NoDup (map fst (X ++ F))) by (eapply Permutation_NoDup; [apply Permutation_map; exact HP | exact Hnd]).
+  split.
+  - intros [Hx Hni]. eapply Permutation_in in Hx; [|exact HP]. apply in_app_or in Hx. destruct Hx as [Hx|Hx]; [exact Hx|].
+    exfalso. apply Hni. unfold ids. apply in_map. exact Hx.
+  - intro Hx. split.
+    + eapply Permutation_in; [apply Permutation_sym; exact HP|]. apply in_or_app. left. exact Hx.
+    + intro Hi. unfold ids in Hi. apply in_map_iff in Hi. destruct Hi as [y [Hy1 Hy2]].
+      apply (NoDup_map_app_disj _ _ fst _ _ x y Hnd' Hx Hy2). symmetry. exact Hy1.
+Qed.
+
+Lemma nth_somes_incl : forall (l : list (option blk)) k, incl (somes [nth k l None]) (somes l).
+Proof.
+  intros l k b Hb. cbn [somes flat_map] in Hb. rewrite app_nil_r in Hb.
+  destruct (nth_in_or_default k l None) as [Hn|Hn].
+  - destruct (nth k l None) as [b'|]; [|destruct Hb]. destruct Hb as [Hb|[]]. subst b'.
+    unfold somes. apply in_flat_map. exists (Some b). split; [exact Hn | left; reflexivity].
+  - rewrite Hn in Hb. destruct Hb.
+Qed.
+
+Lemma NoDup_map_one : forall (l : list (option blk)) k, NoDup (map fst (somes [nth k l None])).
+Proof.
+  intros l k. cbn [somes flat_map]. rewrite app_nil_r. destruct (nth k l None) as [b|]; cbn [map]; repeat constructor. intros [].
+Qed.
+
+Lemma sound_IAbsorb : forall K G st d s G', Inv G st -> own_check K (IAbsorb d s) G = Some (Some G') ->
+  forall fuel, exists st', run fuel (IAbsorb d s) st = (ONormal, st') /\ Inv G' st'.
+Proof.
+  intros K G st d s G' I H fuel. cbn [own_check] in H.
+  destruct (mem d (o_own G)) eqn:Md; cbn [andb] in H; [|discriminate H].
+  destruct (mem s (o_own G)) eqn:Ms; cbn [andb] in H; [|discriminate H].
+  destruct (Nat.eqb_spec d s) as [E|Hds]; cbn [negb] in H; [discriminate H|]. inversion H; subst G'. clear H.
+  apply mem_In in Md. apply mem_In in Ms. cbn [run]. eexists. split; [reflexivity|].
+  destruct (inv_res _ _ I d Md) as [bd Ebd]. destruct (inv_res _ _ I s Ms) as [bs Ebs]. rewrite Ebd, Ebs. cbn [blocks_of].
+  set (st' := sset st d (Res (bd ++ bs))).
+  assert (Hsg : forall x, x <> d -> sget (r_store st') x = sget (r_store st) x).
+  { intros x Hne. unfold st'. rewrite sget_sset. apply Nat.eqb_neq in Hne. rewrite Hne. reflexivity. }
+  assert (Hd' : In d (del s (o_own G))) by (apply del_In; split; assumption).
+  apply Inv_intro with (B := owned st (o_own G)).
+  - cbn [take o_own]. apply del_nodup, (inv_nd _ _ I).
+  - intros x Hx. cbn [take o_own] in Hx. apply del_In in Hx. destruct (Nat.eqb_spec x d) as [E|E].
+    + subst x. unfold st'. rewrite sget_sset, Nat.eqb_refl. eexists; reflexivity.
+    + rewrite (Hsg x E). apply (inv_res _ _ I). tauto.
+  - intros x Hx. cbn [take o_dead] in Hx. assert (x <> d) by (intro E; subst x; exact (inv_disj _ _ I d Hx Md)).
+    rewrite (Hsg x H). apply (inv_dead _ _ I). exact Hx.
+  - intros x Hx. cbn [take o_dead o_own] in *. intro Hin. apply del_In in Hin. apply (inv_disj _ _ I x Hx). tauto.
+  - cbn [take o_own].
+    eapply Permutation_trans; [apply (owned_take_perm st s _ (inv_nd _ _ I) Ms)|].
+    eapply Permutation_trans; [apply Permutation_app_head, (owned_take_perm st d _ (del_nodup s _ (inv_nd _ _ I)) Hd')|].
+    eapply Permutation_trans; [|apply Permutation_sym, (owned_update_perm st st' d _ (del_nodup s _ (inv_nd _ _ I)) Hd' Hsg)].
+    replace (slot_blocks st' d) with (slot_blocks st d ++ slot_blocks st s).
+    + rewrite !app_assoc. apply Permutation_app_tail. apply Permutation_app_comm.
+    + unfold slot_blocks, st'. rewrite sget_sset, Nat.eqb_refl, Ebd, Ebs. cbn [blocks_of]. rewrite somes_app. reflexivity.
+  - eapply heap_is_store; [|apply (inv_heap _ _ I)]. reflexivity.
+  - apply (inv_uniq _ _ I).
+  - intros id n Hin. apply (inv_fresh _ _ I) in Hin. exact Hin.
+  - apply (inv_next _ _ I).
+Qed.
+
+Lemma sound_IAbsorbCopy : forall K G st d p G', Inv G st -> own_check K (IAbsorbCopy d p) G = Some (Some G') ->
+  forall fuel, exists st', run fuel (IAbsorbCopy d p) st = (ONormal, st') /\ Inv G' st'.
+Proof.
+  intros K G st d p G' I H fuel. cbn [own_check] in H.
+  destruct (mem d (o_own G)) eqn:Md; cbn [andb] in H; [|discriminate H].
+  destruct (mem (root p) (o_own G)) eqn:M; [|discriminate H]. inversion H; subst G'. clear H.
+  apply mem_In in Md. apply mem_In in M. cbn [run].
+  destruct (copy_blocks st (read_place st p)) as [l st1] eqn:Ec. eexists. split; [reflexivity|].
+  destruct (copy_blocks_spec _ _ _ _ _ Ec (read_place_sizes _ _ _ I M) (inv_heap _ _ I) (below_owned _ _ I) (inv_next _ _ I))
+    as [Est [Hnx [Hh [Hnd Hfr]]]].
+  destruct (inv_res _ _ I d Md) as [bd Ebd]. rewrite Est, Ebd. cbn [blocks_of].
+  set (st' := sset st1 d (Res (bd ++ l))).
+  assert (Hsg : forall x, x <> d -> sget (r_store st') x = sget (r_store st) x).
+  { intros x Hne. unfold st'. rewrite sget_sset. apply Nat.eqb_neq in Hne. rewrite Hne, Est. reflexivity. }
+  apply Inv_intro with (B := somes l ++ owned st (o_own G)).
+  - apply (inv_nd _ _ I).
+  - intros x Hx. destruct (Nat.eqb_spec x d) as [E|E].
+    + subst x. unfold st'. rewrite sget_sset, Nat.eqb_refl. eexists; reflexivity.
+    + rewrite (Hsg x E). apply (inv_res _ _ I). exact Hx.
+  - intros x Hx. assert (x <> d) by (intro E; subst x; exact (inv_disj _ _ I d Hx Md)).
+    rewrite (Hsg x H). apply (inv_dead _ _ I). exact Hx.
+  - apply (inv_disj _ _ I).
+  - eapply Permutation_trans; [|apply Permutation_sym, (owned_update_perm st st' d _ (inv_nd _ _ I) Md Hsg)].
+    eapply Permutation_trans; [apply Permutation_app_head, (owned_take_perm st d _ (inv_nd _ _ I) Md)|].
+    replace (slot_blocks st' d) with (slot_blocks st d ++ somes l).
+    + rewrite !app_assoc. apply Permutation_app_tail. apply Permutation_app_comm.
+    + unfold slot_blocks, st'. rewrite sget_sset, Nat.eqb_refl, Ebd. cbn [blocks_of]. rewrite somes_app. reflexivity.
+  - eapply heap_is_store; [|exact Hh]. reflexivity.
+  - rewrite map_app. apply NoDup_app_intro; [exact Hnd | apply (inv_uniq _ _ I)|].
+    intros x Hx1 Hx2. apply in_map_iff in Hx1. destruct Hx1 as [[i m] [Hf Hi]]. cbn [fst] in Hf. subst i.
+    apply in_map_iff in Hx2. destruct Hx2 as [[i' m'] [Hf' Hi']]. cbn [fst] in Hf'. subst i'.
+    apply Hfr in Hi. apply (inv_fresh _ _ I) in Hi'. lia.
+  - intros id m Hin. cbn [r_next sset st']. apply in_app_or in Hin. destruct Hin as [Hin|Hin].
+    + apply Hfr in Hin. pose proof (inv_next _ _ I). lia.
+    + apply (inv_fresh _ _ I) in Hin. lia.
+  - cbn [r_next sset st']. pose proof (inv_next _ _ I). lia.
+Qed.
+
+Lemma sound_IAssignPart : forall K G st s k src G', Inv G st -> own_check K (IAssignPart s k src) G = Some (Some G') ->
+  forall fuel, exists st', run fuel (IAssignPart s k src) st = (ONormal, st') /\ Inv G' st'.
+Proof.
+  intros K G st s k src G' I H fuel. cbn [own_check] in H.
+  destruct (mem s (o_own G)) eqn:Ms; cbn [andb] in H; [|discriminate H].
+  destruct (mem src (o_own G)) eqn:Mr; cbn [andb] in H; [|discriminate H].
+  destruct (Nat.eqb_spec s src) as [E|Hne]; cbn [negb] in H; [discriminate H|]. inversion H; subst G'. clear H.
+  apply mem_In in Ms. apply mem_In in Mr. cbn [run]. eexists. split; [reflexivity|].
+  destruct (inv_res _ _ I s Ms) as [ls Els]. destruct (inv_res _ _ I src Mr) as [bs Ebs]. rewrite Els, Ebs. cbn [blocks_of].
+  set (F := [nth k ls None]).
+  assert (Hs' : In s (del src (o_own G))) by (apply del_In; split; assumption).
+  pose proof (owned_take_perm st src _ (inv_nd _ _ I) Mr) as HP1.
+  pose proof (owned_take_perm st s _ (del_nodup src _ (inv_nd _ _ I)) Hs') as HP2.
+  set (R := owned st (del s (del src (o_own G)))) in *.
+  assert (Hss : slot_blocks st s = somes ls) by (unfold slot_blocks; rewrite Els; reflexivity).
+  assert (Hsr : slot_blocks st src = somes bs) by (unfold slot_blocks; rewrite Ebs; reflexivity).
+  assert (HPB : Permutation (owned st (o_own G)) ((somes (put_part ls k bs) ++ R) ++ somes F)).
+  { eapply Permutation_trans; [exact HP1|]. rewrite Hsr.
+    eapply Permutation_trans; [apply Permutation_app_head; exact HP2|]. rewrite Hss.
+    rewrite <- app_assoc. eapply Permutation_trans; [|apply Permutation_app_head, Permutation_app_comm].
+    rewrite !app_assoc. apply Permutation_app_tail.
+    eapply Permutation_trans; [apply Permutation_app_comm|]. apply Permutation_sym. apply put_part_perm. }
+  assert (Hincl : incl (somes F) (owned st (o_own G))).
+  { intros b Hb. eapply slot_blocks_in_owned; [exact Ms|]. rewrite Hss. apply (nth_somes_incl ls k). exact Hb. }
+  assert (Hnz : forall id n, In (id, n) (somes F) -> id <> 0).
+  { intros id n Hb. apply Hincl in Hb. apply (inv_fresh _ _ I) in Hb. lia. }
+  destruct (free_blocks_spec F st _ (inv_heap _ _ I) (inv_uniq _ _ I) Hincl (NoDup_map_one ls k) Hnz) as [Est [Enx [_ Hh]]].
+  set (st1 := free_blocks st F) in *.
+  set (st' := sset st1 s (Res (put_part ls k bs))).
+  assert (Hsg : forall x, x <> s -> sget (r_store st') x = sget (r_store st) x).
+  { intros x Hx. unfold st'. rewrite sget_sset. apply Nat.eqb_neq in Hx. rewrite Hx, Est. reflexivity. }
+  assert (Hnd' : NoDup (map fst ((somes (put_part ls k bs) ++ R) ++ somes F))).
+  { eapply Permutation_NoDup; [apply Permutation_map; exact HPB | apply (inv_uniq _ _ I)]. }
+  apply Inv_intro with (B := somes (put_part ls k bs) ++ R).
+  - cbn [take o_own]. apply del_nodup, (inv_nd _ _ I).
+  - intros x Hx. cbn [take o_own] in Hx. apply del_In in Hx. destruct (Nat.eqb_spec x s) as [E|E].
+    + subst x. unfold st'. rewrite sget_sset, Nat.eqb_refl. eexists; reflexivity.
+    + rewrite (Hsg x E). apply (inv_res _ _ I). tauto.
+  - intros x Hx. cbn [take o_dead] in Hx. assert (x <> s) by (intro E; subst x; exact (inv_disj _ _ I s Hx Ms)).
+    rewrite (Hsg x H). apply (inv_dead _ _ I). exact Hx.
+  - intros x Hx. cbn [take o_dead o_own] in *. intro Hin. apply del_In in Hin. apply (inv_disj _ _ I x Hx). tauto.
+  - cbn [take o_own]. eapply Permutation_trans; [|apply Permutation_sym, (owned_update_perm st st' s _ (del_nodup src _ (inv_nd _ _ I)) Hs' Hsg)].
+    apply Permutation_app_tail. unfold slot_blocks, st'. rewrite sget_sset, Nat.eqb_refl. apply Permutation_refl.
+  - eapply heap_is_store with (st := st1); [reflexivity|]. eapply heap_is_perm; [exact Hh|].
+    apply (minus_of_perm _ _ _ HPB (inv_uniq _ _ I)).
+  - eapply NoDup_map_app_l; exact Hnd'.
+  - intros id n Hin. cbn [r_next sset st']. rewrite Enx. apply (inv_fresh _ _ I id n).
+    eapply Permutation_in; [apply Permutation_sym; exact HPB|]. apply in_or_app. left. exact Hin.
+  - cbn [r_next sset st']. rewrite Enx. apply (inv_next _ _ I).
+Qed.
+
+Lemma filter_all : forall (A : Type) (f : A -> bool) l, (forall x, In x l -> f x = true) -> filter f l = l.
+Proof.
+  induction l as [|x l IH]; intro H; [reflexivity|]. cbn [filter]. rewrite (H x (or_introl eq_refl)).
+  f_equal. apply IH. intros y Hy. apply H. right. exact Hy.
+Qed.
+Lemma minus_app : forall A B F, minus (A ++ B) F = minus A F ++ minus B F.
+Proof. intros. unfold minus. apply filter_app. Qed.
+
+Lemma sound_IAssignPartCopy : forall K G st s k p G', Inv G st -> own_check K (IAssignPartCopy s k p) G = Some (Some G') ->
+  forall fuel, exists st', run fuel (IAssignPartCopy s k p) st = (ONormal, st') /\ Inv G' st'.
+Proof.
+  intros K G st s k p G' I H fuel. cbn [own_check] in H.
+  destruct (mem s (o_own G)) eqn:Ms; cbn [andb] in H; [|discriminate H].
+  destruct (mem (root p) (o_own G)) eqn:Mp; cbn [andb] in H; [|discriminate H].
+  destruct (Nat.eqb_spec (root p) s) as [E|Hne]; cbn [negb] in H; [discriminate H|]. inversion H; subst G'. clear H.
+  apply mem_In in Ms. apply mem_In in Mp. cbn [run].
+  assert (Hpe : place_eqb p (PPart s k) = false).
+  { destruct p as [x|x j|x]; cbn [place_eqb]; [reflexivity| |reflexivity]. cbn [root] in Hne. apply Nat.eqb_neq in Hne. rewrite Hne. reflexivity. }
+  rewrite Hpe. destruct (inv_res _ _ I s Ms) as [ls Els]. rewrite Els. cbn [blocks_of].
+  set (F := [nth k ls None]).
+  pose proof (owned_take_perm st s _ (inv_nd _ _ I) Ms) as HP.
+  set (R := owned st (del s (o_own G))) in *.
+  assert (Hss : slot_blocks st s = somes ls) by (unfold slot_blocks; rewrite Els; reflexivity).
+  assert (Hincl : incl (somes F) (owned st (o_own G))).
+  { intros b Hb. eapply slot_blocks_in_owned; [exact Ms|]. rewrite Hss. apply (nth_somes_incl ls k). exact Hb. }
+  assert (Hnz : forall id n, In (id, n) (somes F) -> id <> 0).
+  { intros id n Hb. apply Hincl in Hb. apply (inv_fresh _ _ I) in Hb. lia. }
+  destruct (free_blocks_spec F st _ (inv_heap _ _ I) (inv_uniq _ _ I) Hincl (NoDup_map_one ls k) Hnz) as [Est [Enx [_ Hh]]].
+  set (st1 := free_blocks st F) in *.
+  assert (Erp : read_place st1 p = read_place st p) by (destruct p; cbn [read_place]; rewrite Est; reflexivity).
+  rewrite Erp. destruct (copy_blocks st1 (read_place st p)) as [l st2] eqn:Ec. eexists. split; [reflexivity|].
+  assert (Hbel1 : below (minus (owned st (o_own G)) (somes F)) (r_next st1)).
+  { intros id n Hin. apply minus_In in Hin. destruct Hin as [Hin _]. rewrite Enx. apply (inv_fresh _ _ I) in Hin. lia. }
+  destruct (copy_blocks_spec _ _ _ _ _ Ec (read_place_sizes _ _ _ I Mp) Hh Hbel1 ltac:(rewrite Enx; apply (inv_next _ _ I)))
+    as [Est2 [Hnx [Hh2 [Hnd Hfr]]]].
+  rewrite Enx in Hnx, Hfr.
+  set (st' := sset st2 s (Res (put_part ls k l))).
+  assert (Hsg : forall x, x <> s -> sget (r_store st') x = sget (r_store st) x).
+  { intros x Hx. unfold st'. rewrite sget_sset. apply Nat.eqb_neq in Hx. rewrite Hx, Est2, Est. reflexivity. }
+  (* all blocks before the free: the copies and everything owned *)
+  assert (HPB : Permutation (somes l ++ owned st (o_own G)) ((somes (put_part ls k l) ++ R) ++ somes F)).
+  { eapply Permutation_trans; [apply Permutation_app_head; exact HP|]. rewrite Hss.
+    rewrite app_assoc. eapply Permutation_trans; [apply Permutation_app_tail, Permutation_app_comm|].
+    eapply Permutation_trans; [apply Permutation_app_tail, Permutation_sym, (put_part_perm ls k l)|].
+    rewrite <- !app_assoc. apply Permutation_app_head. apply Permutation_app_comm. }
+  assert (HndAll : NoDup (map fst (somes l ++ owned st (o_own G)))).
+  { rewrite map_app. apply NoDup_app_intro; [exact Hnd | apply (inv_uniq _ _ I)|].
+    intros x Hx1 Hx2. apply in_map_iff in Hx1. destruct Hx1 as [[i m] [Hf Hi]]. cbn [fst] in Hf. subst i.
+    apply in_map_iff in Hx2. destruct Hx2 as [[i' m'] [Hf' Hi']]. cbn [fst] in Hf'. subst i'.
+    apply Hfr in Hi. apply (inv_fresh _ _ I) in Hi'. lia. }
+  assert (Hml : minus (somes l) (somes F) = somes l).
+  { unfold minus. apply filter_all. intros [i m] Hi. apply negb_true_iff.
+    destruct (memN (fst (i, m)) (ids (somes F))) eqn:Em; [|reflexivity]. exfalso. apply memN_In in Em.
+    unfold ids in Em. apply in_map_iff in Em. destruct Em as [[i' m'] [Hf Hi']]. cbn [fst] in Hf. subst i'.
+    apply Hfr in Hi. apply Hincl in Hi'. apply (inv_fresh _ _ I) in Hi'. lia. }
+  assert (Hnd' : NoDup (map fst ((somes (put_part ls k l) ++ R) ++ somes F))).
+  { eapply Permutation_NoDup; [apply Permutation_map; exact HPB | exact HndAll]. }
+  apply Inv_intro with (B := somes (put_part ls k l) ++ R).
+  - apply (inv_nd _ _ I).
+  - intros x Hx. destruct (Nat.eqb_spec x s) as [E|E].
+    + subst x. unfold st'. rewrite sget_sset, Nat.eqb_refl. eexists; reflexivity.
+    + rewrite (Hsg x E). apply (inv_res _ _ I). exact Hx.
+  - intros x Hx. assert (x <> s) by (intro E; subst x; exact (inv_disj _ _ I s Hx Ms)).
+    rewrite (Hsg x H). apply (inv_dead _ _ I). exact Hx.
+  - apply (inv_disj _ _ I).
+  - eapply Permutation_trans; [|apply Permutation_sym, (owned_update_perm st st' s _ (inv_nd _ _ I) Ms Hsg)].
+    apply Permutation_app_tail. unfold slot_blocks, st'. rewrite sget_sset, Nat.eqb_refl. apply Permutation_refl.
+  - eapply heap_is_store with (st := st2); [reflexivity|]. eapply heap_is_perm; [exact Hh2|].
+    intro x. rewrite <- Hml. rewrite <- minus_app. apply (minus_of_perm _ _ _ HPB HndAll).
+  - eapply NoDup_map_app_l; exact Hnd'.
+  - intros id n Hin. cbn [r_next sset st'].
+    assert (Hin2 : In (id, n) (somes l ++ owned st (o_own G))).
+    { eapply Permutation_in; [apply Permutation_sym; exact HPB|]. apply in_or_app. left. exact Hin. }
+    apply in_app_or in Hin2. destruct Hin2 as [Hin2|Hin2].
+    + apply Hfr in Hin2. pose proof (inv_next _ _ I). lia.
+    + apply (inv_fresh _ _ I) in Hin2. lia.
+  - cbn [r_next sset st']. pose proof (inv_next _ _ I). lia.
+Qed.
+
+(* ------------------------------------------------------------------ control flow *)
+Lemma check_simple_own_check : forall i G G', check_simple i G = Some G' -> forall K, own_check K i G = Some (Some G').
+Proof.
+  induction i; intros G G' H K; cbn [check_simple] in H; try discriminate H; cbn [own_check].
+  - inversion H; reflexivity.
+  - destruct (check_simple i1 G) as [G1|] eqn:E1; [|discriminate H].
+    rewrite (IHi1 _ _ E1 K). apply IHi2. exact H.
+  - destruct (mem s (o_own G)); [inversion H; reflexivity|]. destruct (mem s (o_dead G)); [inversion H; reflexivity | discriminate H].
+Qed.
+
+Lemma run_simple : forall i G G' fuel st, check_simple i G = Some G' -> Inv G st ->
+  exists st', run fuel i st = (ONormal, st') /\ Inv G' st'.
+Proof.
+  induction i; intros G G' fuel st H I; cbn [check_simple] in H; try discriminate H.
+  - inversion H; subst. exists st. split; [reflexivity | exact I].
+  - destruct (check_simple i1 G) as [G1|] eqn:E1; [|discriminate H].
+    destruct (IHi1 _ _ fuel st E1 I) as [st1 [R1 I1]]. destruct (IHi2 _ _ fuel st1 H I1) as [st2 [R2 I2]].
+    exists st2. split; [|exact I2]. cbn [run]. rewrite R1. exact R2.
+  - apply (sound_IFree ctx0 G st s G' I). cbn [own_check].
+    destruct (mem s (o_own G)); [inversion H; reflexivity|]. destruct (mem s (o_dead G)); [inversion H; reflexivity | discriminate H].
+Qed.
+
+Definition brk_ok (K : ctx) (st : rstate) : Prop :=
+  exists code Gt Gk Gk', k_brk K = Some (code, Gt) /\ Inv Gk st /\ check_simple code Gk = Some Gk' /\ sub Gk' Gt = true.
+Definition cont_ok (K : ctx) (st : rstate) : Prop :=
+  exists code Gt Gk Gk', k_cont K = Some (code, Gt) /\ Inv Gk st /\ check_simple code Gk = Some Gk' /\ sub Gk' Gt = true.
+Definition ret_ok (K : ctx) (st : rstate) : Prop :=
+  exists R Gr, k_ret K = Some R /\ Inv Gr st /\ sub Gr R = true.
+
+Definition exit_ok (K : ctx) (R : option ost) (o : outcome) (st : rstate) : Prop :=
+  match o with
+  | ONormal => exists G', R = Some G' /\ Inv G' st
+  | OBreak => brk_ok K st
+  | OContinue => cont_ok K st
+  | ORet => ret_ok K st
+  | OFuel => True
+  end.
+
+Lemma atomic_exit : forall K i G R fuel st,
+  (forall G', own_check K i G = Some (Some G') -> exists st', run fuel i st = (ONormal, st') /\ Inv G' st') ->
+  (own_check K i G <> Some None) ->
+  own_check K i G = Some R -> forall o st', run fuel i st = (o, st') -> exit_ok K R o st'.
+Proof.
+  intros K i G R fuel st Hs Hn H o st' Hr. destruct R as [G'|]; [|contradiction].
+  destruct (Hs G' H) as [st1 [E I1]]. rewrite E in Hr. inversion Hr; subst. exists G'. split; [reflexivity | exact I1].
+Qed.
+
+Lemma join_sound : forall ra rb R, join ra rb = Some R ->
+  (forall G st, ra = Some G -> Inv G st -> exists G', R = Some G' /\ Inv G' st) /\
+  (forall G st, rb = Some G -> Inv G st -> exists G', R = Some G' /\ Inv G' st).
+Proof.
+  intros ra rb R H. unfold join in H. destruct ra as [A|]; destruct rb as [B|].
+  - destruct (leq (o_own A) (o_own B)) eqn:E; [|discriminate H]. inversion H; subst R. clear H. apply leq_eq in E.
+    split; intros G st HG I; inversion HG; subst G; eexists; (split; [reflexivity|]); eapply Inv_sub; try exact I;
+      unfold sub; cbn [o_own o_dead]; apply andb_true_iff; split.
+    + apply sub_refl_own.
+    + apply subset_incl. intros x Hx. apply inter_In in Hx. tauto.
+    + rewrite E. apply sub_refl_own.
+    + apply subset_incl. intros x Hx. apply inter_In in Hx. tauto.
+  - inversion H; subst. split; intros G st HG I; [|discriminate HG]. exists G. split; [exact HG | exact I].
+  - inversion H; subst. split; intros G st HG I; [discriminate HG|]. exists G. split; [exact HG | exact I].
+  - inversion H; subst. split; intros G st HG I; discriminate HG.
+Qed.
+
+Lemma loop_sound : forall K G Gout fuel test body oncont onbrk onexit,
+  let K' := mkCtx (Some (oncont, G)) (Some (onbrk, Gout)) (k_ret K) in
+  (forall st o st', Inv G st -> run fuel test st = (o, st') -> exit_ok ctx0 (Some G) o st') ->
+  (forall st o st', Inv G st -> run fuel body st = (o, st') -> exit_ok K' (Some G) o st' \/ (o <> ONormal /\ exit_ok K' None o st')) ->
+  check_simple onexit G = Some Gout ->
+  forall n skip cnt st o st', Inv G st ->
+    loop_iter (run fuel test) (run fuel body) (run fuel oncont) (run fuel onbrk) (run fuel onexit) n skip cnt st = (o, st') ->
+    exit_ok K (Some Gout) o st'.
+Proof.
+  intros K G Gout fuel test body oncont onbrk onexit K' Htest Hbody Hexit.
+  induction n as [|n IH]; intros skip cnt st o st' I Hr; cbn [loop_iter] in Hr.
+  - inversion Hr; subst. exact Logic.I.
+  - assert (Hgo : forall cnt' st2, Inv G st2 ->
+              match run fuel body st2 with
+              | (ONormal, st3) => loop_iter (run fuel test) (run fuel body) (run fuel oncont) (run fuel onbrk) (run fuel onexit) n false cnt' st3
+              | (OContinue, st3) => match run fuel oncont st3 with
+                                    | (ONormal, st4) => loop_iter (run fuel test) (run fuel body) (run fuel oncont) (run fuel onbrk) (run fuel onexit) n false cnt' st4
+                                    | r => r
+                                    end
+              | (OBreak, st3) => run fuel onbrk st3
+              | r => r
+              end = (o, st') -> exit_ok K (Some Gout) o st').
+    { intros cnt' st2 I2 Hg. destruct (run fuel body st2) as [ob st3] eqn:Eb.
+      destruct (Hbody st2 ob st3 I2 Eb) as [Hx|[Hne Hx]]; destruct ob; try contradiction; cbn [exit_ok] in Hx.
+      - destruct Hx as [G' [EG I3]]. inversion EG; subst G'. eapply IH; eassumption.
+      - destruct Hx as [code [Gt [Gk [Gk' [Ek [Ik [Ec Es]]]]]]]. cbn [K' k_brk] in Ek. inversion Ek; subst code Gt.
+        destruct (run_simple _ _ _ fuel st3 Ec Ik) as [st4 [R4 I4]]. rewrite R4 in Hg. inversion Hg; subst.
+        exists Gout. split; [reflexivity|]. eapply Inv_sub; eassumption.
+      - destruct Hx as [code [Gt [Gk [Gk' [Ek [Ik [Ec Es]]]]]]]. cbn [K' k_cont] in Ek. inversion Ek; subst code Gt.
+        destruct (run_simple _ _ _ fuel st3 Ec Ik) as [st4 [R4 I4]]. rewrite R4 in Hg.
+        eapply IH; [eapply Inv_sub; eassumption | exact Hg].
+      - inversion Hg; subst. exact Hx.
+      - inversion Hg; subst. exact Logic.I.
+      - destruct Hx as [code [Gt [Gk [Gk' [Ek [Ik [Ec Es]]]]]]]. cbn [K' k_brk] in Ek. inversion Ek; subst code Gt.
+        destruct (run_simple _ _ _ fuel st3 Ec Ik) as [st4 [R4 I4]]. rewrite R4 in Hg. inversion Hg; subst.
+        exists Gout. split; [reflexivity|]. eapply Inv_sub; eassumption.
+      - destruct Hx as [code [Gt [Gk [Gk' [Ek [Ik [Ec Es]]]]]]]. cbn [K' k_cont] in Ek. inversion Ek; subst code Gt.
+        destruct (run_simple _ _ _ fuel st3 Ec Ik) as [st4 [R4 I4]]. rewrite R4 in Hg.
+        eapply IH; [eapply Inv_sub; eassumption | exact Hg].
+      - inversion Hg; subst. exact Hx.
+      - inversion Hg; subst. exact Logic.I. }
+    destruct skip.
+    + eapply Hgo; eassumption.
+    + destruct (run fuel test st) as [ot st1] eqn:Et. pose proof (Htest st ot st1 I Et) as Hx.
+      destruct ot; cbn [exit_ok] in Hx.
+      * destruct Hx as [G' [EG I1]]. inversion EG; subst G'.
+        assert (Hexit' : forall st2, Inv G st2 -> run fuel onexit st2 = (o, st') -> exit_ok K (Some Gout) o st').
+        { intros st2 I2 Hr2. destruct (run_simple _ _ _ fuel st2 Hexit I2) as [st5 [R5 I5]]. rewrite R5 in Hr2. inversion Hr2; subst.
+          exists Gout. split; [reflexivity | exact I5]. }
+        destruct cnt as [[|c]|].
+        -- eapply Hexit'; eassumption.
+        -- eapply Hgo; eassumption.
+        -- destruct (next_bool st1) as [c st2] eqn:En.
+           assert (I2 : Inv G st2).
+           { unfold next_bool in En. destruct (r_oracle st1) as [|b r]; inversion En; subst; [exact I1|].
+             destruct I1 as [A1 A2 A3 A4 A5 A6 A7 A8]. constructor; assumption. }
+           destruct c; [eapply Hgo; eassumption | eapply Hexit'; eassumption].
+      * destruct Hx as [code [Gt [Gk [Gk' [Ek _]]]]]. discriminate Ek.
+      * destruct Hx as [code [Gt [Gk [Gk' [Ek _]]]]]. discriminate Ek.
+      * destruct Hx as [R [Gr [Ek _]]]. discriminate Ek.
+      * inversion Hr; subst. exact Logic.I.
+Qed.
+
+Theorem own_check_sound : forall i K G R fuel st o st',
+  own_check K i G = Some R -> Inv G st -> run fuel i st = (o, st') -> exit_ok K R o st'.
+Proof.
+  induction i; intros K G R fuel st o st' H I Hr.
+  - (* ISkip *) cbn in H, Hr. inversion H; inversion Hr; subst. exists G. split; [reflexivity | exact I].
+  - (* ISeq *) cbn [own_check] in H. cbn [run] in Hr.
+    destruct (own_check K i1 G) as [r1|] eqn:E1; [|discriminate H].
+    destruct (run fuel i1 st) as [o1 st1] eqn:Er1. pose proof (IHi1 _ _ _ _ _ _ _ E1 I Er1) as Hx.
+    destruct r1 as [G1|].
+    + destruct o1; cbn [exit_ok] in Hx; try (inversion Hr; subst; exact Hx).
+      destruct Hx as [G' [EG I1]]. inversion EG; subst G'. eapply IHi2; eassumption.
+    + inversion H; subst R. destruct o1; cbn [exit_ok] in Hx; try (inversion Hr; subst; exact Hx).
+      destruct Hx as [G' [EG _]]. discriminate EG.
+  - (* INew *) eapply atomic_exit; try eassumption.
+    + intros G' HG. eapply sound_INew; eassumption.
+    + cbn [own_check]. destruct (writable d G); discriminate.
+  - (* ICopy *) eapply atomic_exit; try eassumption.
+    + intros G' HG. eapply sound_ICopy; eassumption.
+    + cbn [own_check]. destruct (writable d G && mem (root p) (o_own G)); discriminate.
+  - (* IMove *) eapply atomic_exit; try eassumption.
+    + intros G' HG. eapply sound_IMove; eassumption.
+    + cbn [own_check]. destruct (writable d G && mem s (o_own G) && negb (Nat.eqb d s)); discriminate.
+  - (* IFree *) eapply atomic_exit; try eassumption.
+    + intros G' HG. eapply sound_IFree; eassumption.
+    + cbn [own_check]. destruct (mem s (o_own G)); [discriminate|]. destruct (mem s (o_dead G)); discriminate.
+  - (* IConcat *) eapply atomic_exit; try eassumption.
+    + intros G' HG. eapply sound_IConcat; eassumption.
+    + cbn [own_check].
+      destruct (writable d G && mem a (o_own G) && mem (root b) (o_own G) && negb (Nat.eqb d a) && negb (Nat.eqb (root b) a)); discriminate.
+  - (* IGrow *) eapply atomic_exit; try eassumption.
+    + intros G' HG. eapply sound_IGrow; eassumption.
+    + cbn [own_check]. destruct (writable d G && mem a (o_own G) && negb (Nat.eqb d a)); discriminate.
+  - (* IOverwritePart *) cbn [own_check] in H. discriminate H.
+  - (* IAbsorb *) eapply atomic_exit; try eassumption.
+    + intros G' HG. eapply sound_IAbsorb; eassumption.
+    + cbn [own_check]. destruct (mem d (o_own G) && mem s (o_own G) && negb (Nat.eqb d s)); discriminate.
+  - (* IAbsorbCopy *) eapply atomic_exit; try eassumption.
+    + intros G' HG. eapply sound_IAbsorbCopy; eassumption.
+    + cbn [own_check]. destruct (mem d (o_own G) && mem (root p) (o_own G)); discriminate.
+  - (* IAssignPart *) eapply atomic_exit; try eassumption.
+    + intros G' HG. eapply sound_IAssignPart; eassumption.
+    + cbn [own_check]. destruct (mem s (o_own G) && mem src (o_own G) && negb (Nat.eqb s src)); discriminate.
+  - (* IAssignPartCopy *) eapply atomic_exit; try eassumption.
+    + intros G' HG. eapply sound_IAssignPartCopy; eassumption.
+    + cbn [own_check]. destruct (mem s (o_own G) && mem (root p) (o_own G) && negb (Nat.eqb (root p) s)); discriminate.
+  - (* IIf *) cbn [own_check] in H. cbn [run] in Hr.
+    destruct (own_check K i1 G) as [ra|] eqn:E1; [|discriminate H].
+    destruct (own_check K i2 G) as [rb|] eqn:E2; [|discriminate H].
+    destruct (join_sound _ _ _ H) as [Ja Jb].
+    destruct (next_bool st) as [c st1] eqn:En.
+    assert (I1 : Inv G st1).
+    { unfold next_bool in En. destruct (r_oracle st) as [|b r]; inversion En; subst; [exact I|].
+      destruct I as [A1 A2 A3 A4 A5 A6 A7 A8]. constructor; assumption. }
+    destruct c.
+    + pose proof (IHi1 _ _ _ _ _ _ _ E1 I1 Hr) as Hx. destruct o; cbn [exit_ok] in *; try exact Hx.
+      destruct Hx as [G' [EG I2]]. eapply Ja; eassumption.
+    + pose proof (IHi2 _ _ _ _ _ _ _ E2 I1 Hr) as Hx. destruct o; cbn [exit_ok] in *; try exact Hx.
+      destruct Hx as [G' [EG I2]]. eapply Jb; eassumption.
+  - (* ILoop *) cbn [own_check] in H. cbn [run] in Hr.
+    destruct (own_check ctx0 i1 G) as [[Gt|]|] eqn:Et; try discriminate H.
+    destruct (sub Gt G) eqn:Es; [|discriminate H].
+    destruct (check_simple i5 G) as [Gout|] eqn:Ex; [|discriminate H].
+    set (K' := mkCtx (Some (i3, G)) (Some (i4, Gout)) (k_ret K)) in *.
+    destruct (own_check K' i2 G) as [rb|] eqn:Eb; [|discriminate H].
+    assert (HR : R = Some Gout /\ (forall Gb, rb = Some Gb -> sub Gb G = true)).
+    { destruct rb as [Gb|]; [|inversion H; split; [reflexivity | intros ? HH; discriminate HH]].
+      destruct (sub Gb G) eqn:Esb; [|discriminate H]. inversion H. split; [reflexivity|]. intros ? HH. inversion HH; subst. exact Esb. }
+    destruct HR as [ER Hsb]. subst R.
+    eapply (loop_sound K G Gout fuel i1 i2 i3 i4 i5); try eassumption.
+    + intros st0 o0 st0' I0 Hr0. pose proof (IHi1 _ _ _ _ _ _ _ Et I0 Hr0) as Hx.
+      destruct o0; cbn [exit_ok] in *; try exact Hx.
+      destruct Hx as [G' [EG I2]]. inversion EG; subst G'. exists G. split; [reflexivity|]. eapply Inv_sub; eassumption.
+    + intros st0 o0 st0' I0 Hr0. pose proof (IHi2 _ _ _ _ _ _ _ Eb I0 Hr0) as Hx.
+      destruct o0; cbn [exit_ok] in *.
+      * left. destruct Hx as [G' [EG I2]]. exists G. split; [reflexivity|]. eapply Inv_sub; [exact I2|]. apply Hsb. exact EG.
+      * left. exact Hx.
+      * left. exact Hx.
+      * left. exact Hx.
+      * left. exact Logic.I.
+  - (* IBreak *) cbn [own_check] in H. cbn [run] in Hr. inversion Hr; subst.
+    destruct (k_brk K) as [[code Gt]|] eqn:Ek; [|discriminate H].
+    destruct (check_simple code G) as [G1|] eqn:Ec; [|discriminate H].
+    destruct (sub G1 Gt) eqn:Es; [|discriminate H]. cbn [exit_ok]. exists code, Gt, G, G1. auto.
+  - (* IContinue *) cbn [own_check] in H. cbn [run] in Hr. inversion Hr; subst.
+    destruct (k_cont K) as [[code Gt]|] eqn:Ek; [|discriminate H].
+    destruct (check_simple code G) as [G1|] eqn:Ec; [|discriminate H].
+    destruct (sub G1 Gt) eqn:Es; [|discriminate H]. cbn [exit_ok]. exists code, Gt, G, G1. auto.
+  - (* IRet *) cbn [own_check] in H. cbn [run] in Hr. inversion Hr; subst.
+    destruct (k_ret K) as [Rr|] eqn:Ek; [|discriminate H].
+    destruct (sub G Rr) eqn:Es; [|discriminate H]. cbn [exit_ok]. exists Rr, G. auto.
+  - (* IFun *) cbn [own_check] in H. cbn [run] in Hr.
+    match type of H with (if ?c then _ else _) = _ => destruct c; [|discriminate H] end.
+    set (R0 := fold_right take G consumed) in *.
+    set (Rf := match ret with Some r => give r R0 | None => R0 end) in *.
+    destruct (own_check (mkCtx None None (Some Rf)) i G) as [rb|] eqn:Eb; [|discriminate H].
+    destruct (run fuel i st) as [ob st1] eqn:Erb. pose proof (IHi _ _ _ _ _ _ _ Eb I Erb) as Hx.
+    assert (HR : R = Some Rf /\ (forall Gb, rb = Some Gb -> sub Gb Rf = true)).
+    { destruct rb as [Gb|]; [|inversion H; split; [reflexivity | intros ? HH; discriminate HH]].
+      destruct (sub Gb Rf) eqn:Esb; [|discriminate H]. inversion H. split; [reflexivity|]. intros ? HH. inversion HH; subst. exact Esb. }
+    destruct HR as [ER Hsb]. subst R.
+    destruct ob; cbn [exit_ok] in Hx; inversion Hr; subst; cbn [exit_ok].
+    + destruct Hx as [G' [EG I2]]. exists Rf. split; [reflexivity|]. eapply Inv_sub; [exact I2|]. apply Hsb. exact EG.
+    + destruct Hx as [code [Gt [Gk [Gk' [Ek _]]]]]. discriminate Ek.
+    + destruct Hx as [code [Gt [Gk [Gk' [Ek _]]]]]. discriminate Ek.
+    + destruct Hx as [Rr [Gr [Ek [Ir Es]]]]. cbn [k_ret] in Ek. inversion Ek; subst Rr.
+      exists Rf. split; [reflexivity|]. eapply Inv_sub; eassumption.
+    + exact Logic.I.
+Qed.
+
+(* ------------------------------------------------------------------ whole programs *)
+Lemma Inv_init : forall oracle, Inv (mkO [] []) (init_rstate oracle).
+Proof.
+  intro oracle. constructor; cbn.
+  - constructor.
+  - intros s [].
+  - intros s [].
+  - intros s [].
+  - exists []. split; [reflexivity|]. intros id n. cbn. split; [discriminate | tauto].
+  - constructor.
+  - intros id n [].
+  - lia.
+Qed.
+
+Theorem program_ok_balanced : forall P fuel oracle L,
+  program_ok P = true -> run_program fuel oracle P = Some L -> balanced L.
+Proof.
+  intros P fuel oracle L Hok Hrun. unfold program_ok in Hok. unfold run_program in Hrun.
+  destruct (compile P) as [code|]; [|discriminate Hok].
+  destruct (own_check ctx0 code (mkO [] [])) as [[G|]|] eqn:Ec; try discriminate Hok.
+  destruct (o_own G) as [|x l] eqn:Eo; [|discriminate Hok].
+  destruct (run fuel code (init_rstate oracle)) as [o st] eqn:Er.
+  destruct o; try discriminate Hrun. inversion Hrun; subst L. clear Hrun.
+  pose proof (own_check_sound _ _ _ _ _ _ _ _ Ec (Inv_init oracle) Er) as Hx. cbn [exit_ok] in Hx.
+  destruct Hx as [G' [EG I]]. inversion EG; subst G'.
+  destruct (inv_heap _ _ I) as [a [Ha Hl]]. rewrite Eo in Hl. cbn in Hl.
+  apply balancedb_correct. apply balancedb_afold.
+  destruct a as [|[q n] a]; [exact Ha|]. exfalso. apply (Hl q n). cbn [alook]. rewrite N.eqb_refl. reflexivity.
+Qed.
+
+(* the discipline of the pinned code generator is NOT balanced on all programs: faithful witnesses *)
+Definition wit_self_assign : program := mkProg [] (SSeq (SDecl 0%nat (ELit 6)) (SAssign 0%nat (EVar 0%nat))).
+Definition wit_while_cond : program := mkProg [] (SWhile (EUse1 (ELit 4)) (SBlock SSkip)).
+Definition wit_for_bound : program := mkProg [] (SFor EPrim (EUse1 (ELit 4)) EPrim false 2%nat (SBlock SSkip)).
+Definition wit_continue_header : program :=
+  mkProg [] (SFor (EUse1 (ELit 3)) EPrim EPrim false 2%nat (SBlock SContinue)).
+Definition wit_continue_foreach : program :=
+  mkProg [] (SForEach 0%nat None (EDerive (ELit 6) 5) 2%nat (SBlock SContinue)).
+Definition wit_return_in_while : program :=
+  mkProg [mkFun [] true (SSeq (SWhile (EUse1 (ELit 4)) (SBlock (SReturn (Some (ELit 2))))) (SReturn (Some (ELit 3))))]
+         (SExpr (ECall 0%nat ANil)).
+
+Lemma unbalanced_witness : forall P fuel oracle,
+  (match run_program fuel oracle P with Some L => negb (balancedb L) | None => false end) = true ->
+  exists L, run_program fuel oracle P = Some L /\ ~ balanced L.
+Proof.
+  intros P fuel oracle H. destruct (run_program fuel oracle P) as [L|]; [|discriminate H].
+  exists L. split; [reflexivity|]. intro HB. apply balancedb_correct in HB. rewrite HB in H. discriminate H.
+Qed.
+
+Theorem program_balanced_refuted :
+  (exists L, run_program 5%nat [] wit_self_assign = Some L /\ ~ balanced L) /\
+  (exists L, run_program 5%nat [true; true; false] wit_while_cond = Some L /\ ~ balanced L) /\
+  (exists L, run_program 5%nat [] wit_for_bound = Some L /\ ~ balanced L) /\
+  (exists L, run_program 5%nat [] wit_continue_header = Some L /\ ~ balanced L) /\
+  (exists L, run_program 5%nat [] wit_continue_foreach = Some L /\ ~ balanced L) /\
+  (exists L, run_program 5%nat [true] wit_return_in_while = Some L /\ ~ balanced L).
+Proof. repeat split; apply unbalanced_witness; vm_compute; reflexivity. Qed.
+
+(* ... and the static discipline rejects exactly these *)
+Lemma witnesses_rejected :
+  map program_ok [wit_self_assign; wit_while_cond; wit_for_bound; wit_continue_header; wit_continue_foreach; wit_return_in_while]
+  = [false; false; false; false; false; false].
+Proof. vm_compute. reflexivity. Qed.
